@@ -188,10 +188,20 @@ fn fill_thread_stack(
     thread.stack.memory.rva = buffer.position() as u32;
 
     if let Ok((valid_stack_ptr, stack_len)) = dumper.get_stack_info(stack_ptr) {
-        let stack_len = if let MaxStackLen::Len(max_stack_len) = max_stack_len {
-            min(stack_len, max_stack_len)
-        } else {
-            stack_len
+        let (valid_stack_ptr, stack_len) = match max_stack_len {
+            MaxStackLen::Len(max_stack_len) if max_stack_len > 0 && stack_len > max_stack_len => {
+                // Skip the chunks of length max_stack_len that lie entirely below the stack
+                // pointer, so that the part we keep contains the stack pointer.
+                let sp_offset = stack_ptr
+                    .saturating_sub(valid_stack_ptr)
+                    .min(stack_len - 1);
+                let skip = (sp_offset / max_stack_len) * max_stack_len;
+                (
+                    valid_stack_ptr + skip,
+                    min(stack_len - skip, max_stack_len),
+                )
+            }
+            _ => (valid_stack_ptr, stack_len),
         };
 
         let mut stack_bytes = PtraceDumper::copy_from_process(
